@@ -21,8 +21,17 @@ pub fn compile_dump(src: &str) -> serde_json::Value {
         match Compiler::compile_program(&program) {
             Ok(chunk) => {
                 let ops: Vec<String> = chunk.code.iter().map(|o| format!("{:?}", o)).collect();
+                let pool: Vec<String> = chunk
+                    .constants
+                    .iter()
+                    .map(|c| match c {
+                        tsrun::compiler::Constant::String(s) => format!("S:{}", s),
+                        tsrun::compiler::Constant::Number(n) => format!("N:{:?}", n),
+                        _ => "other".to_string(),
+                    })
+                    .collect();
                 json!({"status": "ok", "ops": ops, "register_count": chunk.register_count,
-                       "constants": chunk.constants.len()})
+                       "constants": chunk.constants.len(), "pool": pool})
             }
             Err(e) => {
                 let (c, m) = crate::run::error_class(&e);
